@@ -2,8 +2,8 @@
 SPEC = {
         "ready": True,
         "sources": ["c05.cpp", "c05_alias.cpp", "c05_exact_f.cpp", "c05_exact_d.cpp", "c05_det_f.cpp", "c05_det_d.cpp",
-                    "c05_round_f.cpp", "c05_round_d.cpp"],
-        "lib": [],
+                    "c05_round_f.cpp", "c05_round_d.cpp", "c05_mixed_f.cpp", "c05_mixed_d.cpp", "c05_intvec.cpp"],
+        "lib": ["half.cpp"],
         "technique": "exhaustive enumeration of integer lattices, prime-scaled basis-element pairs and 0/+-1 sparsity patterns "
                      "against exact int64/__int128 evaluation of the textbook sums of products; graded non-lattice operands against long double",
         "level_text": "Every product (matrix x matrix, vector x matrix plain / homogeneous / multDirMatrix, dot, cross, outerProduct, "
@@ -13,7 +13,12 @@ SPEC = {
                       "operands, all 65536 0/1 and, thorough, all 3^16 {-1,0,1} 4x4 matrices for determinants and minors); the result must "
                       "equal the __int128 evaluation of the algebraic definition, all spellings must agree bitwise, det(AB)=det A det B, "
                       "det of the transpose and cofactor expansion along every row and column must reproduce the determinant exactly, and "
-                      "on graded non-lattice operands every result must lie within (R+1) eps sum|terms| of the long-double value.",
+                      "on graded non-lattice operands every result must lie within (R+1) eps sum|terms| of the long-double value. "
+                      "Vector x matrix products are additionally run with a vector element type S different from the matrix element type T "
+                      "(S in {float, double, int, short, int64_t, half}, T in {float, double}; integer and dyadic-fraction matrices whose sums are exact "
+                      "in both types; homogeneous quotient = the rational rounded once in S resp. the C++ integer quotient), dot and cross of the "
+                      "short / int / int64_t / half vector instantiations against 128-bit integer sums up to the top of each type's overflow-free range, "
+                      "the Quat 4-D dot (operator^, euclideanInnerProduct), and the static Matrix44::multiply(a,b,c) with c aliasing a and/or b.",
         "level_note": "Bounded: exact equality is decided on the enumerated lattices only (a wrong index, sign or skipped term is visible "
                       "there because every bilinear term is exercised in isolation and in dense generic combination); the rounding bound is "
                       "checked on 4032 graded operand pairs per dimension, not on all floats. Trusts x86-64 long double and IEEE division.",
@@ -21,7 +26,10 @@ SPEC = {
         "rule": "complete enumeration of the stated operand lattices on the real code; non-trivial = by a predicate on the input, a "
                 "4x4 determinant whose last column has zero entries (term-skipping branches; all 16 zero patterns must occur), a singular / "
                 "non-singular matrix, a homogeneous product with affine (w=1) or projective last column or an inexact quotient, a "
-                "sparsity pattern with an affine last column ('.generic' classes excluded)",
+                "sparsity pattern with an affine last column, a homogeneous divide by a w that is not a power of two, a product whose vector and matrix "
+                "element types differ (integral / narrower / wider S; fractional matrix entries with integer sums; truncated integer quotients), integer vector "
+                "operands near the top of the overflow-free range (int64_t products above 2^53), a static multiply whose destination is a source "
+                "('.generic' classes excluded)",
         "assumptions": ["long double has a 64-bit significand (x86-64)",
                         "default build configuration: g++ -O2 -std=c++14, no FMA contraction, no -ffast-math"],
     }
